@@ -530,11 +530,12 @@ func (h *hintMgr) Merge(forGC bool) (err error) {
 
 func (h *hintMgr) set(ki *KeyInfo, meta *Meta, pos Position, recSize uint32, reason string) (rotated bool) {
 	it := newHintItem(ki.KeyHash, meta.Ver, meta.ValueHash, Position{0, pos.Offset}, ki.StringKey)
-	old, ok := h.collisions.get(ki.KeyHash, ki.StringKey)
-	if ok && reason == "gc" && old == nil {
-		// GC keeps a record of a colliding hash that it cannot judge as a
-		// conservative guess: it may be a superseded version, so it must not
-		// become the table's (authoritative) entry for the key
+	_, ok := h.collisions.get(ki.KeyHash, ki.StringKey)
+	if ok && reason == "gc-guess" {
+		// GC keeps some records as a conservative guess (a record of a colliding
+		// hash that it cannot judge, a tombstone whose key is not in the tree):
+		// such a record may be superseded, so it must not become, or replace,
+		// the table's (authoritative) entry for the key
 		ok = false
 	}
 	if ok {
